@@ -1,7 +1,7 @@
 from typing import Dict, Callable
 
 from ..types import *
-from ..sim import Environment, ProcessGenerator, PriorityStore, SimTime
+from ..sim import Environment, ProcessGenerator, PriorityStore, PriorityItem, SimTime
 from ..packet import Packet
 from .base import Scheduler
 
@@ -32,7 +32,8 @@ class VC(Scheduler):
 
     def run(self, env: Environment) -> ProcessGenerator:
         while True:
-            packet: Packet = yield self.store.get()
+            item: PriorityItem = yield self.store.get()
+            packet: Packet = item.item
             yield env.process(self.send_packet(packet))
 
     def put(self, packet: Packet):
@@ -53,4 +54,6 @@ class VC(Scheduler):
         self.add_packet_to_queue(packet)
         # transmite packets by the order of increasing stamp values
         # use aux_vc as stamp value
-        self.store.put((self.aux_vc[class_id], packet))
+        # equal stamps: the earlier arrival goes first (packets themselves are
+        # not comparable)
+        self.store.put(PriorityItem((self.aux_vc[class_id], now), packet))
